@@ -297,7 +297,8 @@ def gen_source(ctx, asset, depth, need, safe=False):
         if n > 4 and r.random() < 0.7:
             # many small capped draws: every sub-source contributes (as many senders as sub-sources)
             c = ((need or n) // n) + r.choice([0, 1, 1])
-            subs = [(("max [%s %d] from %s" % (asset, c, t), ('capped', c, s_)) if r.random() < 0.85 else (t, s_)) for t, s_ in subs]
+            # (through gen_monetary: an amount that does not fit a literal goes through a variable)
+            subs = [(("max %s from %s" % (gen_monetary(ctx, asset, c), t), ('capped', c, s_)) if r.random() < 0.85 else (t, s_)) for t, s_ in subs]
         if n >= 1 and ctx.chance("free_prefix", 0.12):
             # a few draws that consult no balance (a capped @world, a capped unbounded overdraft) in front of the accounts:
             # they push senders without touching the per-account bookkeeping the later sources rely on
